@@ -64,6 +64,16 @@ var fixedCases = []Case{
 		"(in-package 'shipping)\n(defun scale (v) (* v 3))\n",
 		"(in-package 'billing)\n(scale 5)\n"),
 		"billing/util.lisp", "shipping/util.lisp", "app/main.lisp"),
+	// 14. (no finding; guards the package of an export form) one file, two
+	// packages with the same bare name: exported by the earlier package, private
+	// in the later one; a third package imports the first.  With rename-exports
+	// the export form has to follow the definition of ITS package.
+	one("mismatch:misbound-ref/export-form:homonym-in-later-package", true, true, nil, "",
+		"(in-package 'shapes)\n(export 'area)\n(defun area (r) (* r r))\n(in-package 'rooms)\n(export 'describe)\n(defun area (w h) (* w h))\n(defun describe (w h) (list 'sq (area w h)))\n(in-package 'user)\n(use-package 'shapes)\n(use-package 'rooms)\n(debug-print (area 3) (describe 2 5))\n(shapes:area 4)\n"),
+	// 15. the same with the homonym being a top-level set variable (never
+	// renamed) and parameter renaming on
+	one("mismatch:stale-ref/export-form:homonym-in-later-package", false, true, nil, "",
+		"(in-package 'shapes)\n(export 'area)\n(defun area (r) (* r r))\n(in-package 'rooms)\n(set 'area 12)\n(in-package 'user)\n(use-package 'shapes)\n(list (area 3) rooms:area)\n"),
 }
 
 func paths(c Case, ps ...string) Case {
